@@ -491,6 +491,10 @@ def weighted_strings(h: Harness):
             continue
         h.count("weighted-strings:boundary-draws")
         h.seen(f"ws:boundary:{script}", nontrivial=True)
+        if isinstance(s2, str) and all(ch in letters for ch in s2):
+            # level A: the model's generate (rows as numerators over 8) picks the same letters for the same draws
+            h.agree("WeightedStringHandler.generate", ["ws_generate", 8, [[int(round(float(x) * 8)) for x in row] for row in m2], list(script)],
+                    ["ok", [letters.index(ch) for ch in s2]], nontrivial=True)
         bad = None
         if not isinstance(s2, str) or len(s2) != len(m2) or any(ch not in letters for ch in s2):
             bad = f"{s2!r} is not a string of {len(m2)} letters over {letters}"
@@ -562,17 +566,27 @@ def string_operators(h: Harness):
                         for opname in ("mutate", "crossover"):
                             if opname == "crossover" and script[0] > 1:
                                 continue
+                            site = f"StringSizeBetween.{opname}"
+                            if opname == "mutate":
+                                line = ["str_mutate", lo, hi, al, list(cur), list(script)]
+                            else:
+                                mate_strs = currents[:: max(1, len(currents) // 4)]
+                                draws = [script[1], script[0] + script[2], script[2]]
+                                line = ["str_crossover", lo, hi, [list(m) for m in mate_strs], list(cur), draws]
                             try:
                                 if opname == "mutate":
                                     v = pymh.mutate(ScriptedSource(list(script)), b.grammar, None, 2, str, cur)
                                 else:
-                                    mates = [types.SimpleNamespace(s=m) for m in currents[:: max(1, len(currents) // 4)]]
-                                    v = pymh.crossover(ScriptedSource([script[1], script[0] + script[2], script[2]]), b.grammar, mates, "s", str, cur)
+                                    mates = [types.SimpleNamespace(s=m) for m in mate_strs]
+                                    v = pymh.crossover(ScriptedSource(draws), b.grammar, mates, "s", str, cur)
                             except Exception as e:  # noqa: BLE001   (an operator may give up; C02 speaks about the values it returns)
                                 h.count(f"StringSizeBetween.{opname}:raises:{type(e).__name__}")
+                                # level A: the model gives up on exactly the same draws (an empty range handed to randint)
+                                h.agree(site, line, "error", nontrivial=False)
                                 continue
                             h.count(f"StringSizeBetween.{opname}:values")
-                            site = f"StringSizeBetween.{opname}"
+                            if isinstance(v, str):
+                                h.agree(site, line, ["ok", list(v)], nontrivial=v != cur)
                             c = gram.canon(v, b) if isinstance(v, str) else ["v", repr(v)]
                             h.holds(site, "operator-value-violates-refinement", ["prop_sat", gram.mh_sx(mh), [], c],
                                     f"StringSizeBetween({lo}, {hi}, {al}).{opname} of {cur!r} with draws {list(script)} returned {v!r}, which violates "
